@@ -545,7 +545,11 @@ type creds struct {
 	jwtVia, tokVia         int // 0 header, 1 query parameter, 2 query parameter with a percent-encoded name, 3 parameter of a form body
 	tokShape               int // rejected tokens: 0 opaque, 1 JWT of a foreign issuer, 2 JWT naming the trusted issuer
 	accept                 int // index into acceptValues
+	sibling                int // index into siblingCookies: another cookie sent along with the session cookie
 }
+
+// cookies of other applications travel in the same header; some are not well-formed by the book
+var siblingCookies = []string{"", "theme=dark", `prefs={"theme":"dark"}`, "consent", "my cookie=foo", `path=C:\temp`}
 
 var acceptValues = []string{"", "application/json", "image/png", "foo", "text/html;q=0.1, */*;q=0", "application/pdf"}
 
@@ -595,7 +599,7 @@ func (c creds) headers() map[string]string {
 var credNames = []string{"none", "valid", "invalid", "malformed"}
 
 func (c creds) String() string {
-	return fmt.Sprintf("basic=%s jwt=%s/%d token=%s/%d/%d sess=%s accept=%q", credNames[c.basic], credNames[c.jwt], c.jwtVia, credNames[c.token], c.tokVia, c.tokShape, credNames[c.sess], acceptValues[c.accept])
+	return fmt.Sprintf("basic=%s jwt=%s/%d token=%s/%d/%d sess=%s+%q accept=%q", credNames[c.basic], credNames[c.jwt], c.jwtVia, credNames[c.token], c.tokVia, c.tokShape, credNames[c.sess], siblingCookies[c.sibling], acceptValues[c.accept])
 }
 
 func (c creds) allHeaders() map[string]string {
@@ -649,6 +653,13 @@ func (c creds) allHeaders() map[string]string {
 		h["Cookie"] = "sess=good"
 	case 2:
 		h["Cookie"] = "sess=stale"
+	}
+	if sib := siblingCookies[c.sibling]; sib != "" && c.sess != 0 {
+		if c.sibling%2 == 0 {
+			h["Cookie"] = sib + "; " + h["Cookie"]
+		} else {
+			h["Cookie"] += "; " + sib
+		}
 	}
 	return h
 }
@@ -932,6 +943,9 @@ func pipeSim(r *simcore.Run) {
 			c.tokShape = s.Draw(3, "token-shape")
 		}
 		c.accept = []int{0, 0, 0, 1, 2, 3, 4, 5}[s.Draw(8, "accept")]
+		if c.sess != 0 {
+			c.sibling = []int{0, 0, 1, 2, 3, 4, 5}[s.Draw(7, "sibling-cookie")]
+		}
 		path := "/svc/1"
 		if s.Draw(8, "unmatched-path") == 7 {
 			path = "/other"
